@@ -3,6 +3,8 @@ package props
 import (
 	"fmt"
 	"os"
+	"os/exec"
+	"syscall"
 	"strings"
 
 	"pegverif/canon"
@@ -34,6 +36,46 @@ type c02Image struct {
 	dir       string
 	committed uint32 // height committed when the image was taken
 	dirty     bool   // the block tx had executed at least one write
+}
+
+// KillTest is run in a child process: it applies the named coverage chain and sends
+// itself SIGKILL right before driver-level operation number `op` of block `height`.
+func KillTest(chain string, height uint32, op int, dbpath string) {
+	var cov Coverage
+	for _, cv := range []Coverage{CoverageLegacy(), Coverage2x()} {
+		if cv.Name == chain {
+			cov = cv
+		}
+	}
+	cov.Era.Apply()
+	b := drive.NewBuilder(cov.Era)
+	cov.Build(b)
+	d, err := drive.Open(dbpath, fake.NewNode(b.Chain), nil, false)
+	if err != nil {
+		os.Exit(3)
+	}
+	committed := cov.Era.Base
+	n := 0
+	d.DB.SetHooks(&sqlw.Hooks{
+		Before: func(o *sqlw.Op) error {
+			if o.Kind == "begin" {
+				n = 0
+			}
+			n++
+			if committed+1 == height && n == op {
+				syscall.Kill(os.Getpid(), syscall.SIGKILL)
+				select {}
+			}
+			return nil
+		},
+		After: func(o *sqlw.Op, err error) {
+			if o.Kind == "commit" && err == nil {
+				committed++
+			}
+		},
+	})
+	d.SyncTo(b.Chain.Tip(), drive.SyncOpts{})
+	os.Exit(4) // the crash point was never reached
 }
 
 func runC02(c *core.Ctx, r *core.Result) {
@@ -257,6 +299,35 @@ func c02Chain(c *core.Ctx, r *core.Result, cov Coverage, wal bool) {
 					}
 				}
 			}
+		}
+		// conformance of the image method: really SIGKILL a child process at the same point and compare
+		killStride := 997
+		if c.Thorough() {
+			killStride = 97
+		}
+		if !wal && img.desc != "after-commit" && (i%killStride == 0 || c.Only != "") {
+			kdir := img.dir + "-kill"
+			os.MkdirAll(kdir, 0777)
+			self, _ := os.Executable()
+			cmd := exec.Command(self, "killtest", cov.Name, fmt.Sprint(img.height), fmt.Sprint(img.op), kdir+"/db")
+			cmd.Env = append(os.Environ(), "LXRBITSIZE=8")
+			err := cmd.Run()
+			killed := false
+			if ee, ok := err.(*exec.ExitError); ok {
+				if ws, ok := ee.Sys().(syscall.WaitStatus); ok && ws.Signaled() && ws.Signal() == syscall.SIGKILL {
+					killed = true
+				}
+			}
+			if !killed {
+				r.Count("real-kill-child-did-not-reach-the-crash-point", 1)
+			} else {
+				r.Count("real-kill-cross-validated", 1)
+				kd, e := canon.FileRW(drive.DBFileOf(kdir+"/db"), canon.Ledger)
+				if e != nil || !canon.Equal(kd, ledger) {
+					r.Violate(core.Violation{Key: key, Signature: "C02:harness:image-differs-from-real-sigkill", Desc: fmt.Sprintf("the file image taken at %s differs from what a really killed process leaves behind", img.desc), Detail: joinDiff(ledger, kd)})
+				}
+			}
+			os.RemoveAll(kdir)
 		}
 		if len(r.Samples) < 4 {
 			r.Sample(map[string]interface{}{"crash_point": key, "op": img.desc, "recorded_synced": synced, "tx_had_writes": img.dirty})
